@@ -291,7 +291,7 @@ def xml_file(year, month, rates, period=None, dup=False):
 
 def gen_folder(rng, codes):
     """-> (files, label). files: [{"name","xml","mtime"}]"""
-    label = rng.choice(["override", "override", "add_month", "mislabelled", "nonpositive", "empty"])
+    label = rng.choice(["override", "override", "add_month", "mislabelled", "nonpositive", "empty", "bad_name"])
     files = []
     months = fxm.bundled_months()
     if label == "empty":
@@ -309,6 +309,12 @@ def gen_folder(rng, codes):
         cs = rng.sample(codes, rng.randint(1, 3))
         rates = [(c, dstr(Fraction(rng.randint(1, 99999), rng.choice([10, 100, 1000, 10000])))) for c in cs]
         name = rng.choice(["{y}-{m:02d}.xml", "monthly_xml_{y}-{m:02d}.xml"]).format(y=ym[0], m=ym[1])
+        if label == "bad_name" and i == 0:
+            # the name states a month in a spelling the loader does not accept (and, half of the time, a month
+            # other than the Period's): the file must be rejected, not loaded under its Period
+            ny, nm = (ym[0], ym[1]) if rng.random() < 0.5 else (ym[0], ym[1] % 12 + 1)
+            name = rng.choice(["{y}_{m:02d}.xml", "{y}-{m:02d}_final.xml", "hmrc_{y}-{m:02d}_v2.xml", "{y}{m:02d}.xml",
+                               "rates.xml", "{y}-{m:02d}-01.xml" if False else "{y}.{m:02d}.xml", "{y}-13.xml", "{y}-00.xml"]).format(y=ny, m=nm)
         period = None
         if label == "mislabelled" and i == 0:
             oy, om = rng.choice([(ym[0], ym[1] % 12 + 1), (ym[0] + 1, ym[1])])
